@@ -91,6 +91,16 @@ func ardop.(*broadcaster).Listen(b) (r)
   trusted
   modifies foreign
 
+# The TNC event loop: every frame from the TNC is handled by this one goroutine, in arrival
+# order, and each handler (PTT controller, state, buffer count, broadcast) is called
+# synchronously before the next frame is taken - so PTT requests reach the controller in
+# order.  The only thing it may start asynchronously is the disconnect after a full-buffer
+# timeout.  (Index/assertion safety of this body is not part of this contract.)
+func ardop.(*TNC).runControlLoop$1() ()
+  props C14
+  nosafety
+  at go requires handlers-run-in-the-loop: streq($callee, "ardop.(*TNC).Disconnect")
+
 func ardop.(*tncConn).Write(conn, p) (n, err)
   props C14
   call fmt.Fprint requires serial-prefix: !conn.isTCP && len($1) == 1 && unbox($1[0]) == "D:"
